@@ -99,7 +99,7 @@ func TestC06Rapid(t *testing.T) {
 	runRapid(t, 600, 30000, func(rt *rapid.T) {
 		c := rec.Begin()
 		tc := newTwoChain(tcOpts{nExecutors: rapid.IntRange(1, 3).Draw(rt, "executors"), otherFirst: rapid.IntRange(0, 1).Draw(rt, "otherFirst"),
-			fromGenesis: rapid.Bool().Draw(rt, "fromGenesis")})
+			fromGenesis: rapid.Bool().Draw(rt, "fromGenesis"), lateBridgeInfo: rapid.IntRange(0, 3).Draw(rt, "lateBridgeInfo") == 0})
 		if tc.opts.fromGenesis {
 			c.Class("l2-started-from-default-genesis")
 		}
@@ -159,7 +159,13 @@ func TestC06Rapid(t *testing.T) {
 		sawDup, sawGap := false, false
 		shape := ""
 		repeatSteps(rt, 30, func(i int) {
-			switch drawWeighted(rt, "op", []weighted{{"deliver", 16}, {"transfer", 2}, {"withdraw", 2}, {"restart", 1}}) {
+			switch drawWeighted(rt, "op", []weighted{{"deliver", 16}, {"transfer", 2}, {"withdraw", 2}, {"restart", 1}, {"bridge-info", 1}}) {
+			case "bridge-info":
+				// the executor registers the bridge info (for the first time, if the L2 started without it)
+				if !tc.infoSet {
+					c.Class("bridge-info-registered-after-deposits-were-processed")
+				}
+				tc.registerBridgeInfo()
 			case "restart":
 				// the L2 is exported and restarted from that genesis in the middle of the schedule
 				tc.restartL2()
